@@ -73,3 +73,16 @@ Definition owed_step (ow : list lkey) (e : tev) : list lkey :=
   | TQ => ow
   end.
 Definition owed (tr : list tev) : list lkey := fold_left owed_step tr [].
+
+(* ---- room-modified events (authorisation_service.rs: RoomMutationWrite / RoomMutationStreamWrite) ----
+   a mutation of a room definition is validated against the room in memory, written, and validated
+   AGAIN after the write against the room as it is then; the room that results is installed and sent
+   in the RoomModified event.  So with concurrent mutations of one room (each adding one entry) the
+   event of the i-th committed mutation carries the entries the room had plus the first i entries
+   in commit order (the commit order is an oracle argument, read off the events by the harness) *)
+Fixpoint room_events_from (have : list N) (order : list N) : list (list N) :=
+  match order with
+  | [] => []
+  | e :: t => let have' := isort (e :: have) in have' :: room_events_from have' t
+  end.
+Definition room_events (base order : list N) : list (list N) := room_events_from (isort base) order.
